@@ -138,7 +138,7 @@ def run(run):
         except Exception as ex:
             run.violate(s.component, "demodulator_raised", s.config(), {"scheme": s.name, "error": repr(ex)[:200]})
     run.log("%d schemes, %d events" % (len(cat), len(evs)))
-    mism = tv.validate(run, "Trace_Modem", evs, name="TV C06", timeout=3000, heap="16g")
+    mism = tv.validate_sharded(run, "Trace_Modem", evs, (lambda e: e["ev"] == "Scheme"), name="TV C06", max_events=(40000 if quick else 30000), jobs=10)
     # vacuity: the scale clause is only exercised for schemes whose kappa the specification could infer
     kappas = {}
     for k in [p for p in getattr(run, "last_prints", []) if isinstance(p, list) and p and p[0] == "KAPPA"]:
